@@ -76,9 +76,19 @@ def bounds(tier):
     return {'base_queries': len(bases()), 'split_all_subsets_up_to_words': 9, 'alias_pairs': tier == 'thorough'}
 
 
+# token lists whose quoted literals contain blanks (single ones and runs): the shell may split there too
+LITSPACE = [
+    ['name', 'from', '.', 'where', 'name', '=', "'a  b.txt'"],
+    ['name', 'from', '.', 'where', 'name', 'like', "'% %'", 'or', 'name', '===', '"c d   e"'],
+    ['name', ',', "concat(name, '  x ')", 'from', '.', 'limit', '2'],
+    ['name', 'from', '.', 'where', 'name', '=', "' lead'", 'or', 'name', '=', "'trail  '"],
+]
+
+
 def bases():
     qs = [q for q in corpus.queries()]
     qs += [e.split(' ') for e in EXTRA]
+    qs += LITSPACE
     # tokens are shell words; normalise attached commas so that word boundaries are whitespace only
     return qs
 
@@ -360,7 +370,23 @@ def eval_group(env, group, tier):
             q2 = [recase(t, f) if i in idx else t for i, t in enumerate(q)]
             for parts, _ in split_renderings(q2, tier):
                 yield parts, 'case+split'
-    gens = itertools.chain(split_renderings(q, tier), alias_renderings(q, tier), case_renderings(q), optional_renderings(q), cased_splits())
+    def literal_splits():
+        # every token its own shell word, and in addition split points inside a quoted literal: every blank alone,
+        # every pair of blanks, and all blanks at once (two adjacent split points produce an empty shell word)
+        for ti, tok in enumerate(q):
+            pos = [i for i, ch in enumerate(tok) if ch == ' ']
+            if not pos or tok[0] not in '\'"`' and '(' not in tok:
+                continue
+            sets = [(p_,) for p_ in pos] + list(itertools.combinations(pos, 2)) + [tuple(pos)]
+            for ps in sets:
+                parts, last = [], 0
+                for p_ in ps:
+                    parts.append(tok[last:p_])
+                    last = p_ + 1
+                parts.append(tok[last:])
+                yield q[:ti] + parts + q[ti + 1:], 'split-inside-literal'
+    gens = itertools.chain(split_renderings(q, tier), alias_renderings(q, tier), case_renderings(q), optional_renderings(q), cased_splits(),
+                           literal_splits() if q in LITSPACE else ())
     n = 0
     for argv, kind in gens:
         key = '\x1f'.join(argv)
